@@ -165,7 +165,78 @@ def contract(t):
     return '\n'.join(o)
 
 
+def roundtrip(t):
+    """spec-level round trip: the layout predicate holds on what the reference encoder writes (induction over the entries)"""
+    name, box, ety, code, iso, fields = t
+    W = sum(w for _, w, _ in fields)
+    o = []
+    # prefixes are prefixes of each other
+    o.append('pub proof fn lemma_%s_prefix_mono(b: %s, n: int, m: int)' % (name, box))
+    o.append('    requires 0 <= n <= m')
+    o.append('    ensures is_prefix(%s_prefix(b, n), %s_prefix(b, m))' % (name, name))
+    o.append('    decreases m')
+    o.append('{')
+    o.append('    if n < m {')
+    o.append('        lemma_%s_prefix_mono(b, n, m - 1);' % name)
+    o.append('        let a = %s_prefix(b, n); let x = %s_prefix(b, m - 1); let y = %s_prefix(b, m);' % (name, name, name))
+    o.append('        assert forall|i: int| 0 <= i < a.len() implies a[i] == y[i] by { assert(x[i] == y[i]); }')
+    o.append('    }')
+    o.append('}')
+    o.append('')
+    o.append('pub proof fn lemma_%s_roundtrip(d: Seq<u8>, p: int, b: %s)' % (name, box))
+    o.append('    requires 0 <= p, %s_wire(b)' % name)
+    o.append('    ensures %s_at(wr(d, p, %s_bytes(b)), p, b)' % (name, name))
+    o.append('{')
+    o.append('    broadcast use lemma_be_bytes_len;')
+    o.append('    let all = %s_bytes(b); let n = b.entries@.len() as int; let s = wr(d, p, all);' % name)
+    o.append('    // header part: prefix 0')
+    o.append('    lemma_%s_prefix_mono(b, 0, n);' % name)
+    o.append('    let h = hdr_bytes(%s_len(b) as u64, 0x%08x);' % (name, code))
+    o.append('    let p0 = %s_prefix(b, 0);' % name)
+    o.append('    assert(p0 == ((h + seq![b.version]) + be_bytes(b.flags as nat, 3)) + be_bytes(b.entries@.len(), 4)) by {')
+    o.append('        assert(h + (seq![b.version] + be_bytes(b.flags as nat, 3)) + be_bytes(b.entries@.len(), 4) =~= ((h + seq![b.version]) + be_bytes(b.flags as nat, 3)) + be_bytes(b.entries@.len(), 4));')
+    o.append('    }')
+    o.append('    lemma_rd4(d, p, (h + seq![b.version]) + be_bytes(b.flags as nat, 3), b.entries@.len(), all);')
+    o.append('    lemma_prefix_app((h + seq![b.version]) + be_bytes(b.flags as nat, 3), be_bytes(b.entries@.len(), 4), all);')
+    o.append('    lemma_rd3(d, p, h + seq![b.version], b.flags as nat, all);')
+    o.append('    lemma_prefix_app(h + seq![b.version], be_bytes(b.flags as nat, 3), all);')
+    o.append('    assert((h + seq![b.version])[8] == b.version);')
+    o.append('    lemma_wr_index(d, p, all, 8);')
+    o.append('    // entries')
+    o.append('    assert forall|j: int| 0 <= j < n implies %s by {' % ' && '.join(
+        '%s == %s' % ((('(%s(s, p + %d + %d * j) as i%d)' % (DEC[w], 16 + sum(x[1] for x in fields[:i]), W, w * 8)) if k == 'i'
+                      else '%s(s, p + %d + %d * j)' % (DEC[w], 16 + sum(x[1] for x in fields[:i]), W)),
+                     ('(#[trigger] b.entries@[j])' if i == 0 else 'b.entries@[j]') + (('.' + fn_) if ety else ''))
+        for i, (fn_, w, k) in enumerate(fields)))
+    o.append('        lemma_%s_prefix_mono(b, j + 1, n);' % name)
+    o.append('        lemma_%s_prefix_len(b, j);' % name)
+    o.append('        let pj = %s_prefix(b, j);' % name)
+    pre = 'pj'
+    chain = []
+    for i, (fn_, w, k) in enumerate(fields):
+        acc = 'b.entries@[j]' + (('.' + fn_) if ety else '')
+        if k == 'i':
+            o.append('        let x%d = %s; assert(((x%d as u%d) as i%d) == x%d) by(bit_vector);' % (i, acc, i, w * 8, w * 8, i))
+            v = '(%s as u%d) as nat' % (acc, w * 8)
+        else:
+            v = '%s as nat' % acc
+        chain.append((pre, v, w))
+        pre = '(%s + be_bytes(%s, %d))' % (pre, v, w)
+    o.append('        assert(%s_prefix(b, j + 1) == %s);' % (name, pre[1:-1] if pre.startswith('(') else pre))
+    # from the last field backwards: each (pre + bytes) is a prefix of all
+    o.append('        assert(is_prefix(%s, all));' % (pre[1:-1] if pre.startswith('(') else pre))
+    for (pr, v, w) in reversed(chain):
+        o.append('        lemma_rd%d(d, p, %s, %s, all);' % (w, pr, v))
+        o.append('        lemma_prefix_app(%s, be_bytes(%s, %d), all);' % (pr, v, w))
+    o.append('    }')
+    o.append('}')
+    o.append('')
+    return '\n'.join(o)
+
+
 if __name__ == '__main__':
     what = sys.argv[1]
+    if what == 'roundtrip':
+        print('// GENERATED by tool/gen_tables.py roundtrip (committed text): spec-level round trip of the table boxes.')
     for t in TABLES:
-        print(spec(t) if what == 'spec' else contract(t))
+        print(spec(t) if what == 'spec' else roundtrip(t) if what == 'roundtrip' else contract(t))
